@@ -235,6 +235,18 @@ fn js_corpus() -> Vec<Project> {
         files.insert("/p/entry.ts".to_string(), "import parse from \"./gen/parser\";\nexport type Umlauts = \"z\" | \"\u{e4}\" | \"a\" | \"A\";\nexport type Digraphs = \"h\" | \"ch\" | \"i\" | \"c\";\nexport type Mixed = \"\u{e5}\" | \"aa\" | \"z\" | 10 | 9 | true;\nexport type Holder = { u: Umlauts; d?: Digraphs; m: Mixed[]; kind: \"\u{f6}\" | \"o\" | \"p\" };\nparse.buildParsers<{ Umlauts: Umlauts; Digraphs: Digraphs; Mixed: Mixed; Holder: Holder }>();\n".to_string());
         corpus.push(Project { id: "env_locale_literals".into(), origin: "verif/sim/src/tools.rs".into(), origin_kind: "synthetic".into(), entry: "/p/entry.ts".into(), settings: crate::model::Settings { string_formats: vec![], number_formats: vec![] }, module: "esm".into(), files });
     }
+    // modules of the recorded histories (corpus/regress_jsim.json, tools/build_regress.py)
+    if let Ok(txt) = std::fs::read_to_string(format!("{}/corpus/regress_jsim.json", crate::coord::home())) {
+        if let Ok(serde_json::Value::Array(entries)) = serde_json::from_str::<serde_json::Value>(&txt) {
+            for e in entries {
+                if let Some(p) = e.get("project").and_then(|p| serde_json::from_value::<Project>(p.clone()).ok()) {
+                    if !corpus.iter().any(|q| q.id == p.id) {
+                        corpus.push(p);
+                    }
+                }
+            }
+        }
+    }
     // stress modules (id prefix "stress_"): used by the hash256 termination leg only
     for (n, style) in [(5, 0), (7, 1), (9, 0), (11, 2), (14, 0)] {
         corpus.push(crate::gen::dense_recursive_project(n, style));
@@ -255,6 +267,9 @@ pub fn prepare_js_chunk(outdir: &str, lo: usize, hi: usize) -> i32 {
             let full = finalize(&code, "esm", &p.settings.string_formats, &p.settings.number_formats);
             let file = format!("{}/{}.mjs", mods, p.id);
             std::fs::write(&file, full).unwrap();
+            // the sources go next to the module, so that a replay file can carry them (synthetic ids do
+            // not outlive a change of the generator)
+            let _ = std::fs::write(format!("{}/{}.project.json", mods, p.id), serde_json::to_string(p).unwrap());
             index.push(serde_json::json!({"id": p.id, "file": file, "string_formats": p.settings.string_formats, "number_formats": p.settings.number_formats, "origin_kind": p.origin_kind}));
         }
     }
